@@ -216,6 +216,33 @@ pub fn observe(t: &mut Toks) -> String {
         nullary(&format!("louvain_partitions.w{}", s), class_watch(&g, move |g| class(|| louvain::louvain_partitions(g, w, None, None, Some(3)))));
         nullary(&format!("louvain_communities.w{}", s), class_watch(&g, move |g| class(|| louvain::louvain_communities(g, w, Some(1.5), Some(0.0), Some(4)))));
     }
+    // graphs that take the rayon branches: the same calls inside caller-installed pools of one worker, of more workers than the
+    // graph has nodes, and of 64 workers (work is split by the number of workers somewhere => a split of size 0 or 1)
+    if u.len() > 20 {
+        let mut items: Vec<String> = vec![];
+        for k in [1usize, u.len() + 3, 64] {
+            let pool = rayon::ThreadPoolBuilder::new().num_threads(k).build().unwrap();
+            let srcs: Vec<u32> = u.clone();
+            let x = u[0];
+            let r: Vec<String> = pool.install(|| {
+                let mut v = vec![];
+                for w in [false, true] {
+                    if negw && w { continue; }
+                    v.push(class(|| betweenness::betweenness_centrality(gr, w, true)));
+                    v.push(class(|| closeness::closeness_centrality(gr, w, true)));
+                    v.push(class(|| dijkstra::all_pairs(gr, w, None, None, false, true)));
+                    v.push(class(|| dijkstra::all_pairs(gr, w, Some(x), None, true, false)));
+                    v.push(class(|| dijkstra::multi_source(gr, w, srcs.clone(), None, None, false, true)));
+                    v.push(class(|| dijkstra::multi_source(gr, w, vec![], None, None, false, false)));
+                    v.push(class_plain(|| dijkstra::get_all_shortest_paths_involving(gr, x, w)));
+                    v.push(class_plain(|| cluster::square_clustering(gr, None)));
+                }
+                v
+            });
+            items.extend(r);
+        }
+        f.push(("pools".to_string(), items.join(" ")));
+    }
     f.iter().map(|(k, v)| format!("i.{}={}", k, v)).collect::<Vec<_>>().join("|")
 }
 
